@@ -259,6 +259,12 @@ func interpCases(c *Ctx, n int, tweak func(cfg *GenCfg, i int), post func(s *Sce
 		case "twoAssets":
 			prog = g.twoAssetsProgram()
 			c.count("directed:twoAssets")
+		case "overdraftTwice":
+			prog = g.overdraftTwiceProgram()
+			c.count("directed:overdraftTwice")
+		case "effectsCarry":
+			prog = g.effectsCarryProgram()
+			c.count("directed:effectsCarry")
 		case "overdraftOrigin":
 			prog = g.overdraftOriginProgram()
 			c.count("directed:overdraftOrigin")
@@ -352,6 +358,10 @@ func init() {
 				cfg.Directed = "varReuseSends"
 			case 1:
 				cfg.Directed = "overdraftOrigin"
+			case 4:
+				cfg.Directed = "overdraftTwice"
+			case 0:
+				cfg.Directed = "effectsCarry"
 			}
 			cfg.SelfLead = i%8 == 2
 		}, nil)
@@ -387,6 +397,7 @@ func init() {
 			cfg.SmallPool = i%4 == 1
 			cfg.OtherAssetLead = i%7 == 2
 			cfg.SelfLead = i%7 == 5
+			cfg.FreePrefix = i%5 == 4
 			switch i % 10 {
 			case 1:
 				cfg.Directed = "hugeSum"
@@ -413,6 +424,7 @@ func init() {
 			cfg.MaxDepth = 4
 			cfg.SmallPool = i%3 == 0
 			cfg.SelfLead = i%5 == 3
+			cfg.FreePrefix = i%5 == 1
 		}, nil)
 	}
 	registry["C05"] = func(c *Ctx) {
@@ -431,6 +443,7 @@ func init() {
 			if i%10 == 7 {
 				cfg.Directed = "varReuseCaps"
 			}
+			cfg.FreePrefix = i%5 == 2
 		}, nil)
 	}
 	registry["C06"] = func(c *Ctx) {
